@@ -69,6 +69,16 @@ def _replay(args):
                 acc = accessor(dg, frame, Rg)
                 ft = pd.DataFrame({'from': np.asarray(mean) - np.asarray(amp), 'to': np.asarray(mean) + np.asarray(amp)})
                 acc2 = accessor(dg, ft, Rg)
+                # the same from/to collective with its exact zeros written as -0.0 (what scaling by a negative factor or a subtraction leaves behind)
+                ftz = ft.copy()
+                for col in ('from', 'to'):
+                    ftz[col] = [-0.0 if v == 0.0 else v for v in ftz[col]]
+                if (ft.to_numpy() == 0.0).any():
+                    accz = accessor(dg, ftz, Rg)
+                    if not close(accz, acc2, 1e-12):
+                        k0 = int(np.nonzero(~np.isclose(np.asarray(accz, dtype=float), np.asarray(acc2, dtype=float), rtol=1e-12, atol=0, equal_nan=True))[0][0])
+                        viol.append(('a cycle whose upper or lower load is written -0.0 instead of 0.0 is transformed to another amplitude', {'diagram': DIAG[dg], 'R_goal': Rg, 'from': float(ftz['from'].iloc[k0]), 'to': float(ftz['to'].iloc[k0])},
+                                     float(np.asarray(acc2)[k0]), float(np.asarray(accz)[k0])))
                 # the same collective with its rows (element ids) in another order: every element keeps its own result
                 perm = list(range(len(amp)))
                 rng.shuffle(perm)
